@@ -84,6 +84,7 @@ def main():
     if ok and all(exes.values()):
         L, G = pktgen.load(os.path.join(C.CACHE, 'probe.json'))
         P.setup(L, G, C)
+        P.exes = exes
         rng = random.Random(seed)
         work = os.path.join(C.CACHE, 'work', pid)
         os.makedirs(work, exist_ok=True)
